@@ -5,7 +5,7 @@ odml = W.odml
 from odml import dtypes
 
 TEXT = {"none": None, "X": "Amplifier gain (dB)", "Xv": "amplifier   GAIN(dB)", "Y": "Something else"}     # Xv: other case, more / no whitespace
-VALS = {"v12": [1, 2], "v23": [2, 3], "v45": [4, 5], "text": ["abc"], "empty": [], "float": [2.5, 3.0], "mixed": ["3", "x"]}
+VALS = {"v12": [1, 2], "v23": [2, 3], "v45": [4, 5], "text": ["abc"], "empty": [], "float": [2.5, 3.0], "mixed": ["3", "x"], "v01": [0, 1]}          # v01: a falsy value the destination lacks
 
 
 def norm(t):
